@@ -21,7 +21,8 @@ class LdmExceptionReturn(Opcode):
                   processor.registers.current_instr_set() == InstrSet.THUMB_EE):
                 print('unpredictable')
             else:
-                length = (4 * bit_count(self.registers, 1, 16)) + 4
+                # self.registers holds all 16 list bits (bit 15, the PC, is always set): count it once
+                length = 4 * bit_count(self.registers & 0x7FFF, 1, 16) + 4
                 address = processor.registers.get(self.n) if self.increment else sub(processor.registers.get(self.n),
                                                                                      length, 32)
                 if self.word_higher:
